@@ -17,6 +17,8 @@ pub enum Tok {
     None,
     Some,
     Seq(usize),
+    Map(usize),
+    Big(u128),
     Variant(u32),
 }
 
@@ -59,7 +61,7 @@ impl<'a> ser::Serializer for &'a mut Ser {
     type SerializeTuple = Self;
     type SerializeTupleStruct = Self;
     type SerializeTupleVariant = Self;
-    type SerializeMap = ser::Impossible<(), Error>;
+    type SerializeMap = Self;
     type SerializeStruct = Self;
     type SerializeStructVariant = Self;
 
@@ -144,8 +146,14 @@ impl<'a> ser::Serializer for &'a mut Ser {
         self.out.push(Tok::Variant(idx));
         Ok(self)
     }
-    fn serialize_map(self, _: Option<usize>) -> Result<Self::SerializeMap, Error> {
-        Err(Error("maps unsupported".into()))
+    fn serialize_map(self, len: Option<usize>) -> Result<Self::SerializeMap, Error> {
+        let len = len.ok_or_else(|| Error("map of unknown length".into()))?;
+        self.out.push(Tok::Map(len));
+        Ok(self)
+    }
+    fn serialize_u128(self, v: u128) -> Result<(), Error> {
+        self.out.push(Tok::Big(v));
+        Ok(())
     }
     fn serialize_struct(self, _: &'static str, _: usize) -> Result<Self, Error> {
         Ok(self)
@@ -170,6 +178,19 @@ macro_rules! compound {
             }
         }
     };
+}
+impl<'a> ser::SerializeMap for &'a mut Ser {
+    type Ok = ();
+    type Error = Error;
+    fn serialize_key<T: ?Sized + Serialize>(&mut self, k: &T) -> Result<(), Error> {
+        k.serialize(&mut **self)
+    }
+    fn serialize_value<T: ?Sized + Serialize>(&mut self, v: &T) -> Result<(), Error> {
+        v.serialize(&mut **self)
+    }
+    fn end(self) -> Result<(), Error> {
+        Ok(())
+    }
 }
 compound!(ser::SerializeSeq, serialize_element);
 compound!(ser::SerializeTuple, serialize_element);
@@ -222,6 +243,25 @@ impl<'de, 'a, 't> SeqAccess<'de> for Counted<'a, 't> {
     }
     fn size_hint(&self) -> Option<usize> {
         Some(self.left)
+    }
+}
+
+struct CountedMap<'a, 't> {
+    de: &'a mut De<'t>,
+    left: usize,
+}
+
+impl<'de, 'a, 't> de::MapAccess<'de> for CountedMap<'a, 't> {
+    type Error = Error;
+    fn next_key_seed<K: DeserializeSeed<'de>>(&mut self, seed: K) -> Result<Option<K::Value>, Error> {
+        if self.left == 0 {
+            return Ok(None);
+        }
+        self.left -= 1;
+        seed.deserialize(&mut *self.de).map(Some)
+    }
+    fn next_value_seed<S: DeserializeSeed<'de>>(&mut self, seed: S) -> Result<S::Value, Error> {
+        seed.deserialize(&mut *self.de)
     }
 }
 
@@ -338,8 +378,18 @@ impl<'de, 'a, 't> de::Deserializer<'de> for &'a mut De<'t> {
     fn deserialize_tuple_struct<V: Visitor<'de>>(self, _: &'static str, len: usize, v: V) -> Result<V::Value, Error> {
         v.visit_seq(Counted { de: self, left: len })
     }
-    fn deserialize_map<V: Visitor<'de>>(self, _: V) -> Result<V::Value, Error> {
-        Err(Error("maps unsupported".into()))
+    fn deserialize_map<V: Visitor<'de>>(self, v: V) -> Result<V::Value, Error> {
+        match self.next()? {
+            Tok::Map(n) => v.visit_map(CountedMap { de: self, left: *n }),
+            t => Err(Error(format!("expected map, found {t:?}"))),
+        }
+    }
+    fn deserialize_u128<V: Visitor<'de>>(self, v: V) -> Result<V::Value, Error> {
+        match self.next()? {
+            Tok::Big(b) => v.visit_u128(*b),
+            Tok::U(u) => v.visit_u128(*u as u128),
+            t => Err(Error(format!("expected u128, found {t:?}"))),
+        }
     }
     fn deserialize_struct<V: Visitor<'de>>(
         self,
